@@ -10,8 +10,27 @@
 -/
 import Model.Convert
 import Model.LALR
+import Model.Expr
 
 namespace Measured
+
+def isDigit (c : Char) : Bool := '0' ≤ c && c ≤ '9'
+
+/-- Python's `int(text)` on `[+-]digits` (what the lexer can hand over); `none` = ValueError.
+    Written over character lists with structural recursion only, so that the kernel can evaluate it. -/
+def isNegChars : List Char → Bool
+  | '-' :: _ => true
+  | _ => false
+
+def stripSign : List Char → List Char
+  | '-' :: r => r
+  | '+' :: r => r
+  | r => r
+
+def intOfChars (cs : List Char) : Option Int :=
+  if (stripSign cs).isEmpty || !(stripSign cs).all isDigit then none
+  else if isNegChars cs then some (-((Nat.ofDigitChars 10 (stripSign cs) 0 : Nat) : Int))
+  else some ((Nat.ofDigitChars 10 (stripSign cs) 0 : Nat) : Int)
 
 def superDigit (c : Char) : Char :=
   match c with
@@ -32,7 +51,7 @@ def fromSuperDigit (c : Char) : Option Char :=
 /-- `formatting.from_superscript`: `int("".join(DIGITS[c] for c in string))`. -/
 def fromSuperscript (t : String) : Option Int :=
   match t.toList.mapM fromSuperDigit with
-  | some cs => (String.ofList cs).toInt?
+  | some cs => intOfChars cs
   | none => none
 
 /-- `formatting.prefix_str`. -/
@@ -44,19 +63,36 @@ def prefixStr (s : St) (p : Pfx) : String :=
 section
 variable {α : Type} [Add α] [Sub α] [Mul α] [Div α] [Neg α] [OfNat α 0] [OfNat α 1] [FloatLike α]
 
-/-- `unit_str` for a unit without a symbol; `none` when a numeric magnitude would lead. -/
-def unitTerms (s : St) (u : UnitRec) : Except Exc String :=
+/-- `_unit_to_magnitude_and_terms`: the (prefix, factor, exponent) terms `unit_str` renders — the
+    unit's prefix pushed down into the first factor as its `exponent`-th root.  `unmodelled` when
+    the root does not exist (a numeric magnitude would lead the text). -/
+def unitTermList (u : UnitRec) : Except Exc (List (Pfx × UId × Int)) :=
   match u.factors with
   | [] => .error .unmodelled
   | (f0, e0) :: rest =>
-    let sym (f : UId) : String := ((s.symsOf f).head?).getD "None"
-    let p := u.pfx       -- unit.prefix * factor.prefix, the factor being a base unit
-    match p.root e0 with
+    -- unit.prefix * factor.prefix, the factor being a base unit (identity prefix)
+    match u.pfx.root e0 with
     | .error _ => .error .unmodelled
-    | .ok p0 =>
-      let first := s!"{prefixStr s p0}{sym f0}{superscript e0}"
-      let others := rest.map (fun fe => s!"{sym fe.1}{superscript fe.2}")
-      .ok ("⋅".intercalate (first :: others))
+    | .ok p0 => .ok ((p0, f0, e0) :: rest.map (fun fe => (Pfx.identity, fe.1, fe.2)))
+
+/-- The unit expression the parser rebuilds from the rendered terms: every term is
+    `resolve_symbol(prefix+symbol) ** exponent`, the terms are multiplied left to right, and the
+    `unit` rule divides by `One`. -/
+def termExpr (t : Pfx × UId × Int) : UExpr :=
+  .pow (if t.1.base == 0 then .ref t.2.1 else .pfx t.1 (.ref t.2.1)) t.2.2
+
+def termsExpr (one : UId) : List (Pfx × UId × Int) → UExpr
+  | [] => .ref one
+  | t :: rest => .div (rest.foldl (fun acc x => .mul acc (termExpr x)) (termExpr t)) (.ref one)
+
+def renderTerm (s : St) (t : Pfx × UId × Int) : String :=
+  s!"{prefixStr s t.1}{((s.symsOf t.2.1).head?).getD "None"}{superscript t.2.2}"
+
+/-- `unit_str` for a unit without a symbol. -/
+def unitTerms (s : St) (u : UnitRec) : Except Exc String :=
+  match unitTermList u with
+  | .error e => .error e
+  | .ok ts => .ok ("⋅".intercalate (ts.map (renderTerm s)))
 
 /-- `formatting.unit_str`. -/
 def unitStrPure (s : St) (i : UId) : Except Exc String :=
@@ -88,7 +124,6 @@ Each matcher is written against the regular expression recorded next to it; the 
 obligation `terminals_eq` (Obligations/C16.lean) checks that the pattern strings in the
 shipped `_parser.py` and in a parser freshly built from `measured.lark` are exactly these. -/
 
-def isDigit (c : Char) : Bool := '0' ≤ c && c ≤ '9'
 def countWhile (p : Char → Bool) : List Char → Nat
   | [] => 0
   | c :: cs => if p c then countWhile p cs + 1 else 0
@@ -230,7 +265,7 @@ def decimalLiteral (t : String) : Option Rat :=
     | '.' :: r => (r.takeWhile isDigit, r.drop (r.takeWhile isDigit).length)
     | _ => ([], cs)
   let e : Option Int := match cs with
-    | c :: r => if c == 'e' || c == 'E' then (String.ofList (match r with | '+' :: r' => r' | _ => r)).toInt? else none
+    | c :: r => if c == 'e' || c == 'E' then intOfChars r else none
     | [] => some 0
   match e with
   | none => none
@@ -255,8 +290,7 @@ def pyInt (t : String) : Except Exc Int :=
   let digits := (t.toList.filter isDigit).length
   if digits > intMaxStrDigits then .error .parseError
   else
-    let body := if t.startsWith "+" then (t.drop 1).toString else t
-    match body.toInt? with
+    match intOfChars t.toList with
     | some i => .ok i
     | none => .error .parseError
 
@@ -344,6 +378,23 @@ def transformerAct (s : St) (r : GRule) (args : List (Val α)) : St × Except Ex
 
 def parseStart (g : Grammar) (start stop : Nat) (t : String) : CM α (Val α) :=
   liftStE (fun s => parseWith g.table g.rules start stop (mkLexConf g.lexOrder g.ignore) transformerAct Val.tok s t)
+
+/-! ### the symbol table seen through `resolve_symbol` -/
+
+/-- Does `prefix symbol ++ unit symbol` resolve to something other than `prefix * unit`? -/
+def collides (s : St) (ps : String) (p : Pfx) (us : String) (u : UId) : Bool :=
+  let r1 := s.pmulUnit p u
+  let r2 := r1.1.resolveSymbol (ps ++ us)
+  match r1.2, r2.2 with
+  | .ok a, .ok b => a != b
+  | .error _, _ => false        -- prefixes of different bases: outside the model
+  | .ok _, .error _ => true
+
+/-- Every colliding (prefix symbol, unit symbol) of the state's tables (same-base pairs). -/
+def collisionList (s : St) : List (String × String) :=
+  s.pfxBySym.flatMap (fun pe => s.unitBySym.filterMap (fun ue =>
+    if collides s pe.1 pe.2 ue.1 ue.2 then some (pe.1, ue.1) else none))
+
 
 /-- `Unit.parse`. -/
 def parseUnit (g : Grammar) (t : String) : CM α UId := do
